@@ -8,6 +8,8 @@ tree (confirmed by reading): a site that becomes unaccounted - a reader narrowed
 dropped, a new Replace without a read - is reported. Functions whose accounting is inter-procedural (the caller
 re-attaches the comments) are not in the table and are not decided.
 """
+import json
+import os
 from engine import Report
 from facts import *
 from paths import *
@@ -159,3 +161,71 @@ def rule_replace(ctx, prop):
                 rep.anchor(False, f"{p} (frozen R-REPLACE function no longer exists)", cfg)
         rep.floor("Replace sites in comment-moving functions", n, 15, cfg)
     return rep
+
+
+# ---------------------------------------------------------------------------------------------------------------
+# Every other Replace site: a census bounded by the reviewed state of the current tree.
+FROZEN_CENSUS = os.path.join(os.path.dirname(os.path.abspath(__file__)), "frozen_replace_census.json")
+
+
+def census(prog):
+    """{(fn, side): number of Replace sites whose side of the node is not completely read in that function}"""
+    out = {}
+    for f in prog.fns("stylua_lib"):
+        sites = replace_sites(f)
+        if not sites:
+            continue
+        reads = accounting(f)
+        for b, s, t, side, k in sites:
+            r = reads.get((k, side), set())
+            if "All" in r or {"Single", "Multiline"} <= r:
+                continue
+            out[(f.path, side)] = out.get((f.path, side), 0) + 1
+    return out
+
+
+def rule_replace_census(ctx, prop):
+    rep = Report(prop, "R-REPLACE(census)", "no new `FormatTriviaType::Replace` of a node's trivia appears without a complete "
+                                           "read of that side of the node in the same function (crate-wide count per side, "
+                                           "bounded by the reviewed sites of the current tree)")
+    if not rep.anchor(os.path.exists(FROZEN_CENSUS), "frozen_replace_census.json"):
+        return rep
+    frozen = json.load(open(FROZEN_CENSUS))
+    for cfg, prog in ctx.programs.items():
+        ref = frozen.get(cfg)
+        if ref is None:
+            continue
+        now = census(prog)
+        for side in ("leading", "trailing"):
+            tot = sum(v for (fn, sd), v in now.items() if sd == side)
+            ok = tot <= ref["total"][side]
+            rep.inst(f"stylua_lib unaccounted Replace({side}) sites: {tot} (reviewed: {ref['total'][side]})", None, cfg, ok=ok)
+            if not ok:
+                grown = sorted(fn for (fn, sd), v in now.items() if sd == side and v > ref["by_fn"].get(f"{fn} | {sd}", 0))
+                for fn in grown:
+                    f = prog.fn("stylua_lib", fn)
+                    rep.violation(f"stylua_lib::{fn} new-unaccounted-Replace side={side}",
+                                  f"{fn} has a new site that replaces the {side} trivia of a node without reading that side "
+                                  f"of the same node first ({now[(fn, side)]} such sites, {ref['by_fn'].get(fn + ' | ' + side, 0)} "
+                                  f"reviewed): comments attached there are deleted (Append keeps them)", f.loc(), cfg)
+        rep.floor("Replace sites outside the accounted table", sum(now.values()), 10, cfg)
+    return rep
+
+
+def freeze_census():
+    import extract
+    files, _ = extract.extract(extract.THOROUGH, verbose=False)
+    out = {}
+    for cfg in extract.THOROUGH:
+        c = census(Program(cfg, files[cfg]))
+        out[cfg] = {"total": {sd: sum(v for (fn, s_), v in c.items() if s_ == sd) for sd in ("leading", "trailing")},
+                    "by_fn": {f"{fn} | {sd}": v for (fn, sd), v in sorted(c.items())}}
+    with open(FROZEN_CENSUS, "w") as fh:
+        json.dump(out, fh, indent=1, sort_keys=True)
+    print({c: d["total"] for c, d in out.items()})
+
+
+if __name__ == "__main__":
+    import sys
+    if "--freeze" in sys.argv:
+        freeze_census()
